@@ -301,7 +301,7 @@ def run(ck, facts):
     i_ok = min((i for i, s in enumerate(items) for n_, _ in oks if any(x is n_ for x in C.walk(s))), default=None)
     ck.expect(i_val is not None and guarded and i_ok is not None and i_val < i_ok, "R4", "from_syn/validate-then-check", "validate -> errors non-empty => Err -> Ok", "TypeContext::from_syn no longer validates and returns Err on a non-empty error store before Ok", C.loc(fsyn))
     val = core.fn("hir::type_context::TypeContext::validate")
-    wct = [x for x in C.walk(C.fn_body(val)) if x.get("k") == "mcall" and x.get("m") == "with_contained_types"]
+    wct = [x for b_ in C.bodies_inl(core, C.fn_body(val), depth=2, exclude=[val["path"]]) for x in C.walk(b_) if x.get("k") == "mcall" and x.get("m") == "with_contained_types"]   # validate and its phase helpers
     elide = None
     for x in wct:
         if any(y.get("k") == "mcall" and y.get("m") == "push" for y in C.walk(x["a"][0])) and any(y.get("k") == "mcall" and y.get("m") == "get_bounds" for y in C.walk(x["a"][0])):
